@@ -2808,6 +2808,32 @@ async def release_scenario(rig: Rig, case, labels) -> bool:
                          'release:listen-not-requested',
                          'tcpip-forward request did not reach the server')
 
+    pend = None
+
+    if case.get('accept_pending'):
+        # an originating connection whose accept handler (documented: may
+        # be a coroutine) has not answered yet when the SSH connection
+        # ends: no channel exists for it, it is still a socket relayed by
+        # this connection
+        labels.add('accept-handler-pending')
+        pend_gate = asyncio.Event()
+        pend_calls: List[Any] = []
+
+        async def slow_accept(orig_host, orig_port):
+            pend_calls.append((orig_host, orig_port))
+            await pend_gate.wait()
+            return True
+
+        plst = await rig.must(rig.conn.forward_local_port(
+            '127.0.0.1', 0, '127.0.0.1', btcp, accept_handler=slow_accept),
+            'forward_local_port (pending accept)')
+        made.append(('local_port', plst, plst.get_port(), btcp))
+        pend = await rig.connect_a(plst.get_port(), 'P')
+        pend.write(pat(1, 0, 50))
+        await rig.expect(lambda: bool(pend_calls), 'relay',
+                         'release:accept-handler-not-called',
+                         'accept handler was not called', poll=True)
+
     if end == 'close':
         rig.conn.close()
     elif end == 'abort':
@@ -2868,6 +2894,14 @@ async def release_scenario(rig: Rig, case, labels) -> bool:
                          'the server-side listen request never finished',
                          poll=True)
         rig.listen_gate = None
+
+    if pend is not None:
+        await rig.expect(lambda: pend.eof, 'close-both',
+                         'release:%s:accept-pending-socket-left-open' % end,
+                         'an originating connection whose accept handler '
+                         'had not answered when the SSH connection ended '
+                         '(%s) is not disconnected' % end)
+        pend_gate.set()
 
     if half is not None:
         await rig.expect(lambda: half.eof, 'close-both',
@@ -3102,6 +3136,7 @@ def release_strategy(tier: str):
         'explicit': pick([False, False, True]),
         'inflight': pick([0, 0, 1, 2]),
         'open_inflight': pick([False, False, True]),
+        'accept_pending': pick([False, False, True]),
         'socks_half': pick([False, True]),
         'early_abort': pick([False, True]),
         'listen_inflight': pick([False, False, True]),
@@ -3425,6 +3460,7 @@ FAMILIES = [
            required={'all': ['rel-' + k for k in REL_KINDS] +
                      ['active', 'explicit-close', 'survives-listener-close',
                       'loss-in-flight', 'open-in-flight',
+                      'accept-handler-pending',
                       'listen-in-flight', 'socks-half-negotiated',
                       'origin-reset-before-confirm',
                       'end-close', 'end-abort', 'end-sabort', 'end-cut']},
